@@ -719,7 +719,28 @@ func (c *Ctx) ord6() {
 	ball := c.acc("ORD-6", off, "breakAll-called")
 	keep := c.acc("ORD-6", off, "pendingAck-kept")
 	order := c.acc("ORD-6", off, "requests-released-after-write-token-exchanged")
+	intr := c.acc("ORD-6", off, "wait-for-the-write-token-only-after-interrupting-the-writer")
 	for _, p := range c.Paths("ORD-6", off) {
+		// a receive that may have to wait (not an arm of a select with default):
+		// whoever holds the token may be stuck in a write on the failed
+		// connection, and only closing that connection gets it back
+		for i := range p.Events {
+			e := &p.Events[i]
+			if e.Kind != pathx.KRecv || tokenOf(e.Chan) != tkWrite || (e.InSelect && e.NonBlocking) {
+				continue
+			}
+			closed := false
+			for j := 0; j < i; j++ {
+				if r := &p.Events[j]; isInvoke(r, "net.Conn", "Close") && len(r.Args) > 0 && roleKey(r.Args[0]) == "Client.readConn" {
+					closed = true
+				}
+			}
+			if closed {
+				intr.pass()
+			} else {
+				intr.fail(p, i, "toOffline waits for the write token before it has closed the failed connection: a request blocked in a write on that connection keeps the token, and the read routine waits with it")
+			}
+		}
 		if p.End != pathx.KReturn {
 			continue
 		}
@@ -823,6 +844,7 @@ func (c *Ctx) ord6() {
 	ping.done(2, "slot drained without blocking; a waiting Ping gets ErrBreak")
 	ball.done(1, "breakAll called on every open path")
 	keep.done(0, "no store to pendingAck")
+	intr.done(1, "the blocking receive of the token follows readConn.Close()")
 	order.done(1, "ping drain and breakAll follow the deposit of connPending")
 }
 
